@@ -752,6 +752,113 @@ def level_parser_table(chk, P, prefix):
     chk.ob("%s.parser-table:Level::from_str" % prefix, "each accepted level name is parsed to the level whose initial it carries", g)
 
 
+def deep_roots(P, body, o, depth=0, out=None):
+    """Every leaf an origin is computed from, looking through *all* calls' arguments, aggregates, phis, projections and closure captures
+    (a may-derive-from set, for rules of the form "X takes part in this decision").  Leaves: ("param", fn key, index) for a parameter of a
+    non-closure body, ("cparam", closure key, index), ("const", value)."""
+    if out is None:
+        out = set()
+    if depth > 24:
+        return out
+    k = o[0]
+    if k == "param":
+        out.add(("cparam" if body.is_closure else "param", body.key, o[1]))
+    elif k == "capture":
+        par = P.bodies.get(body.parent_key)
+        if par is not None:
+            deep_roots(P, par, P.capture_origin(body, o), depth + 1, out)
+    elif k == "const":
+        v = mir.o_const_value(o)
+        if v is not None:
+            out.add(("const", v if not isinstance(v, (list, dict)) else str(v)))
+    elif k == "call":
+        for a in o[1].args:
+            deep_roots(P, o[1].body, o[1].body.origin(a), depth + 1, out)
+    elif k == "phi":
+        for x in o[1]:
+            deep_roots(P, body, x, depth + 1, out)
+    elif k == "agg":
+        for x in o[2]:
+            deep_roots(P, body, x, depth + 1, out)
+    elif k == "binop":
+        deep_roots(P, body, o[2], depth + 1, out)
+        deep_roots(P, body, o[3], depth + 1, out)
+    elif k == "unop":
+        deep_roots(P, body, o[2], depth + 1, out)
+    elif k in ("field", "downcast", "index", "cast", "ref", "deref", "copy", "discr"):
+        deep_roots(P, body, o[1], depth + 1, out)
+        if k == "index" and len(o) > 2 and isinstance(o[2], tuple):
+            deep_roots(P, body, o[2], depth + 1, out)
+    return out
+
+
+def decision_region(P, body, origins, crate=None, limit=400):
+    """The call sites that take part in a decision: every call in the origin trees of `origins`, the bodies of closures handed to those
+    calls, and (for callees in `crate`) the callee's body and closures - each as (body, CallSite, path) where path is the chain of call
+    sites in outer bodies through which a workspace callee was entered (to map its parameters back to arguments)."""
+    out, seen = [], set()
+
+    def add(x, c, via):
+        if (x.key, c.bb) in seen or len(out) > limit:
+            return
+        seen.add((x.key, c.bb))
+        out.append((x, c, via))
+        for a in c.args:
+            visit(x, x.origin(a), via)
+        tgt = c.callee.get("path")
+        if crate and tgt and P.has_body(tgt) and P.body(tgt).crate == crate and tgt != body.key:
+            cb = P.body(tgt)
+            for y in [cb] + P.closures_of(cb):
+                for c2 in y.calls(normal_only=True):
+                    add(y, c2, via + ((x, c),))
+
+    def visit(x, o, via, d=0):
+        if d > 16:
+            return
+        k = o[0]
+        if k == "call":
+            add(x, o[1], via)
+        elif k == "agg":
+            if o[1].get("ak") in ("closure", "coroutine") and o[1].get("def") in P.bodies:
+                cb = P.bodies[o[1]["def"]]
+                for y in [cb] + P.closures_of(cb):
+                    for c2 in y.calls(normal_only=True):
+                        add(y, c2, via)
+            for z in o[2]:
+                visit(x, z, via, d + 1)
+        elif k == "phi":
+            for z in o[1]:
+                visit(x, z, via, d + 1)
+        elif k == "binop":
+            visit(x, o[2], via, d + 1)
+            visit(x, o[3], via, d + 1)
+        elif k == "unop":
+            visit(x, o[2], via, d + 1)
+        elif k in ("field", "downcast", "index", "cast", "ref", "deref", "copy", "discr"):
+            visit(x, o[1], via, d + 1)
+    for o in origins:
+        visit(body, o, ())
+    return out
+
+
+def entry_params(P, root, x, o, via):
+    """Which parameters of `root` (indices) does origin `o` in body `x` derive from, mapping a workspace callee's parameters back through
+    the call chain `via` recorded by decision_region."""
+    res = set()
+    for leaf in deep_roots(P, x, o):
+        if leaf[0] != "param":
+            continue
+        if leaf[1] == root.key:
+            res.add(leaf[2])
+            continue
+        # a parameter of a callee: map through the call that entered it
+        for (ox, oc) in reversed(via):
+            if oc.callee.get("path") == leaf[1] and leaf[2] - 1 < len(oc.args):
+                res |= entry_params(P, root, ox, ox.origin(oc.args[leaf[2] - 1]), via[:via.index((ox, oc))])
+                break
+    return res
+
+
 def root_param(P, body, o, depth=0):
     """If an origin is a parameter of the outermost enclosing function - directly or captured through any number of nested
     closures / async blocks - its index, else None.  Lets rules identify `the visitor`, `the key`, `the value being cast` by
